@@ -247,3 +247,75 @@ Section Errors.
     - apply find_anc_sound in H. auto.
   Qed.
 End Errors.
+
+(* ---------------- termination within the probe budget for EVERY overlap function (inconsistent or failing peers
+   included): the search never runs out of fuel, it ends with an ancestor or with the failed probe *)
+Section Terminates.
+  Variable ov : N -> option bool.
+  Variable head : N.
+  Hypothesis Hhead : head < 2147483648.
+
+  Lemma find_terminates : forall fuel s e anc,
+      s <= e -> e <= head -> e - s + 1 < 2 ^ N.of_nat fuel -> find_anc ov s e anc fuel <> NoFuel.
+  Proof.
+    induction fuel as [|f IH]; intros s e anc Hse Heh Hsz.
+    - cbn in Hsz. lia.
+    - assert (Hpow : 2 ^ N.of_nat (S f) = 2 * 2 ^ N.of_nat f).
+      { rewrite Nat2N.inj_succ, N.pow_succ_r'; auto. }
+      rewrite Hpow in Hsz. cbn [find_anc].
+      destruct (s =? e) eqn:Ese.
+      + destruct (ov s) as [[|]|]; discriminate.
+      + apply N.eqb_neq in Ese. rewrite (wrap32_small (s + e)) by lia.
+        set (mid := (s + e) / 2). assert (Hmid : s <= mid /\ mid < e) by (unfold mid; lia).
+        destruct (ov mid) as [[|]|]; [| |discriminate].
+        * rewrite (wrap32_small (mid + 1)) by lia. apply IH; unfold mid in *; lia.
+        * destruct (s <? mid) eqn:Esm; [|discriminate].
+          apply N.ltb_lt in Esm. rewrite sub32_small by lia. apply IH; unfold mid in *; lia.
+  Qed.
+
+  Lemma fast_seek_terminates : forall c fuel b,
+      1 <= b -> b < 4294967296 -> head <= b * 2 ^ N.of_nat c -> (c <= fuel)%nat ->
+      fast_seek ov head b fuel <> SeekNoFuel /\
+      forall s rest, fast_seek ov head b fuel = Seek s rest -> (fuel - c <= rest)%nat /\ s <= head.
+  Proof.
+    induction c as [|c IH]; intros fuel b Hb1 Hb2 Hcov Hfuel.
+    - cbn in Hcov. assert (E : (head <=? b) = true) by (apply N.leb_le; lia).
+      destruct fuel; cbn [fast_seek]; rewrite E; (split; [discriminate|]); intros s rest H; inversion H; subst; split; lia.
+    - destruct (head <=? b) eqn:E.
+      + destruct fuel; cbn [fast_seek]; rewrite E; (split; [discriminate|]); intros s rest H; inversion H; subst; split; lia.
+      + destruct fuel as [|f]; [lia|]. cbn [fast_seek]. rewrite E. apply N.leb_gt in E.
+        rewrite sub32_small by lia.
+        destruct (ov (head - b)) as [[|]|].
+        * split; [discriminate|]. intros s rest H; inversion H; subst. split; lia.
+        * assert (Hb0 : (b =? 0) = false) by (apply N.eqb_neq; lia). rewrite Hb0.
+          rewrite wrap32_small by lia.
+          destruct (IH f (b * 2)) as [T1 T2]; try lia.
+          { rewrite Nat2N.inj_succ, N.pow_succ_r' in Hcov. lia. }
+          split; [exact T1|]. intros s rest H. destruct (T2 s rest H). split; lia.
+        * split; discriminate.
+  Qed.
+
+  Theorem fca_terminates : forall fuel, (ancestor_fuel head <= fuel)%nat ->
+      find_common_ancestor ov head fuel <> NoFuel.
+  Proof.
+    intros fuel Hfuel. unfold ancestor_fuel in Hfuel. unfold find_common_ancestor.
+    destruct (head =? 0) eqn:Eh; [discriminate|]. apply N.eqb_neq in Eh.
+    destruct fuel as [|f]; [lia|]. cbn [fast_seek].
+    assert (E0 : (head <=? 0) = false) by (apply N.leb_gt; lia). rewrite E0.
+    rewrite sub32_small by lia. rewrite N.sub_0_r.
+    destruct (ov head) as [[|]|]; [rewrite N.eqb_refl; discriminate| |discriminate].
+    cbn [N.eqb].
+    set (c := N.to_nat (N.log2 head + 1)).
+    destruct (fast_seek_terminates c f 1) as [T1 T2]; try lia.
+    { unfold c. rewrite N2Nat.id, N.mul_1_l.
+      assert (H := N.log2_spec head ltac:(lia)). rewrite N.add_1_r. lia. }
+    destruct (fast_seek ov head 1 f) as [s rest| |] eqn:Es; [|discriminate|congruence].
+    destruct (T2 s rest eq_refl) as [R1 R2].
+    destruct (s =? head); [discriminate|].
+    apply find_terminates; try lia.
+    apply N.lt_le_trans with (2 ^ N.of_nat (N.to_nat (N.log2 head + 2))).
+    - rewrite N2Nat.id. assert (H := N.log2_spec head ltac:(lia)).
+      replace (N.log2 head + 2) with (N.succ (N.succ (N.log2 head))) by lia. rewrite N.pow_succ_r'. lia.
+    - apply N.pow_le_mono_r; [lia|]. unfold c in R1. lia.
+  Qed.
+End Terminates.
